@@ -84,6 +84,29 @@ def main(argv):
     if divs:
         broken.append({'what': 'correspondence model/implementation', 'n': len(divs), 'first': divs[:3]})
     if broken and not fresh:
+        # a proof obligation or the correspondence no longer checks: search harder for a concrete input on which
+        # the property itself fails (more cases, fresh seeds), within a time budget
+        budget = float(os.environ.get('VERIF_ESCALATE_S', '240' if tier == 'quick' else '1500'))
+        t_esc, rounds = time.time(), 0
+        while time.time() - t_esc < budget and not fresh and rounds < 40:
+            rounds += 1
+            try:
+                ov2, _ = cfg['run'](rep, random.Random(seed + 7919 * rounds), tier, term)
+            except Exception:
+                break
+            fresh = [v for v in ov2 if not match_known(known, v)]
+        rep.notes.append('escalated search for a failing input: %d extra round(s), %.0f s, %s' % (
+            rounds, time.time() - t_esc, 'found' if fresh else 'none found'))
+        byk = {}
+        for v in fresh:
+            byk.setdefault(v.get('oracle'), v)
+        for v in list(byk.values())[:6]:
+            path = engine.write_replay(prop, {'kind': 'failing-input', 'violation': v, 'seed': seed, 'tier': tier, 'found_by': 'escalated search'})
+            print('VIOLATION property=%s replay=%s' % (prop, path))
+            print('  ' + str(v.get('failure', v).get('msg', v.get('msg', '')))[:300])
+            rep.violation('oracle', v, '')
+            exit_code = 1
+    if broken and not fresh:
         path = engine.write_replay(prop, {'kind': 'no-failing-input-found', 'broken': broken, 'seed': seed, 'tier': tier,
                                           'note': 'the named theorem(s) / correspondence no longer check; the statement-level oracles found no input on which the property fails within this tier\'s budget'})
         print('VIOLATION property=%s replay=%s no-failing-input-found' % (prop, path))
